@@ -12,7 +12,7 @@ import sys
 import time
 
 VERIF = os.path.dirname(os.path.dirname(os.path.abspath(__file__)))
-EVIDENCE_DIR = os.path.join(VERIF, "evidence")
+EVIDENCE_DIR = os.environ.get("VERIF_EVIDENCE_DIR") or os.path.join(VERIF, "evidence")
 WITNESS_DIR = os.path.join(EVIDENCE_DIR, "witnesses")
 KNOWN_FILE = os.path.join(VERIF, "known_findings.json")
 SCHEMA = "/root/.vp/EVIDENCE.schema.json"
